@@ -206,6 +206,8 @@ class Cfg:
             cat = [c for c in cat if c[0] != "K"]
         if not self.allow_ops:
             cat = [c for c in cat if c[0] not in ("F", "Fd")]
+        ro = getattr(self, "rank_override", None) or {}
+        cat = [(c[0], c[1], ro.get(c[1], c[2]), c[3]) for c in cat]
         w = getattr(self, "weights", None) or {}
         return [c for c in cat for _ in range(w.get(c[1], 1))]
 
@@ -508,3 +510,14 @@ def rebuild(expr, mapping):
             return Pow(rec(e.args[0]), e.args[1])
         return e
     return rec(expr)
+
+
+def doc_sequence(space, n):
+    """documented sequence of 'lowest' index names of a space"""
+    base = ALPHABET[space]
+    out = list(base)
+    k = 1
+    while len(out) < n:
+        out += [c + str(k) for c in base]
+        k += 1
+    return out
